@@ -233,7 +233,15 @@ class _PlainAssign(ast.NodeTransformer):
         self.generic_visit(n)
         if n.value is None:
             return n
-        return ast.copy_location(ast.Assign(targets=[n.target], value=n.value, type_comment=None), n)
+        return self.visit_Assign(ast.copy_location(ast.Assign(targets=[n.target], value=n.value, type_comment=None), n))
+
+    def visit_Assign(self, n: ast.Assign):
+        """`x = x + e` is read as `x += e` (one spelling for "update in terms of itself")."""
+        self.generic_visit(n)
+        if len(n.targets) == 1 and isinstance(n.targets[0], (ast.Name, ast.Attribute)) and isinstance(n.value, ast.BinOp) \
+                and ast.dump(n.value.left).replace("Load()", "Store()") == ast.dump(n.targets[0]).replace("Load()", "Store()"):
+            return ast.copy_location(ast.AugAssign(target=n.targets[0], op=n.value.op, value=n.value.right), n)
+        return n
 
 
 class Module:
